@@ -29,33 +29,246 @@ def codec_obligations():
         ob('tplus_only_replaces_plus', all(tplus[c] == c for c in range(256) if c != ord('+')) and tplus[ord('+')] == ord('-'),
            'tplus changes + to - and nothing else (all 256 byte values checked); - is not a base64 character, so the change is unambiguous',
            'finite-enumeration')
-    # 2. chunk sizes: base64 of a concatenation is the concatenation of the base64 texts only at multiples of 3 bytes / 4 characters
-    for name in ('encode_seq', 'encode_str'):
-        f = fns[name]
-        consts = sorted({n.value for n in ast.walk(f) if isinstance(n, ast.Constant) and isinstance(n.value, int) and n.value > 4})
-        ob('%s.chunks_are_multiples_of_3_bytes' % name, consts == [57] and 57 % 3 == 0,
-           '%s encodes in chunks of %s bytes: a multiple of 3, so each chunk encodes without padding and the pieces concatenate to the '
-           'base64 text of the whole' % (name, consts))
-        calls = [c for c in ast.walk(f) if isinstance(c, ast.Call) and getattr(c.func, 'id', None) == 'b2a_base64']
-        good = True
-        for c in calls:
-            nl_false = any(k.arg == 'newline' and isinstance(k.value, ast.Constant) and k.value.value is False for k in c.keywords)
-            parent = [p for p in ast.walk(f) if isinstance(p, ast.Subscript) and p.value is c]
-            strips = bool(parent) and ast.unparse(parent[0].slice) == ':-1'
-            good = good and (strips != nl_false)
-        ob('%s.strips_exactly_the_newline' % name, bool(calls) and good,
-           'every b2a_base64 call either keeps the trailing newline and strips exactly that one character ([:-1]) or suppresses it and '
-           'strips nothing')
-        src = ast.unparse(f)
-        ob('%s.padding_removed_at_the_first_equals_sign' % name, "l_ = state.find(b'=')" in src and 'state = state[:l_]' in src,
-           'padding (= only occurs at the end of base64 text) is cut off at the first =')
-    d = fns['decode_seq']
-    consts = sorted({n.value for n in ast.walk(d) if isinstance(n, ast.Constant) and isinstance(n.value, int) and n.value > 4})
-    ob('decode_seq.chunks_are_multiples_of_4_characters', consts == [76] and 76 % 4 == 0 and 76 == 57 // 3 * 4,
-       'decode_seq decodes in chunks of %s characters: a multiple of 4 and exactly the text of one 57-byte chunk' % consts)
-    src = ast.unparse(d)
-    ob('decode_seq.repads_to_a_multiple_of_4', src.count('k = l_ % 4') == 2 and src.count("state = state + b'=' * (4 - k)") == 2 and src.count('if k:') == 2,
-       'the remainder is padded with 4 - (length mod 4) = characters when the length is not a multiple of 4 (both branches)')
-    ob('decode_seq.undoes_the_translation_first', src.find('state.translate(tminus)') >= 0 and src.find('state.translate(tminus)') < src.find('a2b_base64'),
-       'the URL-safe translation is undone before base64 decoding')
+    # (the chunk sizes, newline stripping, padding removal / restoration and the order of the steps used to be AST pattern
+    # obligations here; they are now consequences of the contracts on the real function bodies below)
+    if ok:
+        ob('tables_keep_ascii_ascii', all(tplus[c] < 128 and tminus[c] < 128 for c in range(128)),
+           'both tables map 0..127 into 0..127 (so translated base64 text is still ASCII)', 'finite-enumeration')
     return out
+
+
+# =====================================================================================================================
+# The codec functions under contract (symbolic bytes model, pyvc/bytesmodel.py): chunk loops, newline stripping, padding
+# removal / restoration, translation and the compression / JSON layers, for every length.
+# =====================================================================================================================
+import z3  # noqa: E402
+from pyvc.contracts import *  # noqa: E402,F401,F403
+from pyvc.values import *  # noqa: E402,F401,F403
+from pyvc import spec as _spec  # noqa: E402
+from pyvc import bytesmodel as BM  # noqa: E402
+
+TT = 'TreeDisplay.TreeTag'
+
+
+def _sz(E, v):
+    return BM.bz(E, v) if BM.is_bytes(v) else E.as_z3_str(v)
+
+
+def _table(E, name):
+    v = E.module_attr(TT, name)
+    if not (isinstance(v, VC) and isinstance(v.v, bytes) and len(v.v) == 256):
+        from pyvc.engine import Unsupported
+        raise Unsupported('TreeTag.%s is not a constant 256-byte table' % name)
+    return v.v
+
+
+def _sp_b64(E, x):
+    return VBy(BM.ax_b64(E, _sz(E, x)))
+
+
+def _sp_strip_pad(E, t):
+    """the text up to the first '=' (all of it when there is none)"""
+    s = _sz(E, t)
+    k = z3.IndexOf(s, z3.StringVal('='), 0)
+    return VBy(z3.If(k >= 0, z3.SubString(s, 0, k), s))
+
+
+def _sp_repad(E, t):
+    """the text padded with '=' to a multiple of 4 characters"""
+    s = _sz(E, t)
+    k = z3.Length(s) % 4
+    return VBy(z3.If(k == 0, s, z3.If(k == 1, z3.Concat(s, z3.StringVal('===')),
+                                       z3.If(k == 2, z3.Concat(s, z3.StringVal('==')), z3.Concat(s, z3.StringVal('='))))))
+
+
+def _sp_tr(name):
+    def f(E, t):
+        return VBy(BM.translate_fn(_table(E, name))(_sz(E, t)))
+    return f
+
+
+def _sp_bjoin(E, lst):
+    return VBy(BM.bjoin_term(E, lst))
+
+
+def _sp_as_text(E, b):
+    return VS(_sz(E, b))
+
+
+def _sp_as_bytes(E, s):
+    return VBy(_sz(E, s))
+
+
+def _sp_pred(fn):
+    def f(E, x):
+        return VB(fn(_sz(E, x)))
+    return f
+
+
+def _sp_fun(fn, out):
+    def f(E, x):
+        if fn is BM.unb64:
+            E.assume(BM.unb64(z3.StringVal('')) == z3.StringVal(''))       # binascii: a2b_base64(b'') == b''
+        return out(fn(_sz(E, x)))
+    return f
+
+
+def _sp_hint_b64_hom(E, x, y):
+    return VB(BM.ax_b64_hom(E, _sz(E, x), _sz(E, y)))
+
+
+def _sp_hint_unb64_hom(E, a, b):
+    return VB(BM.ax_unb64_hom(E, _sz(E, a), _sz(E, b)))
+
+
+def _sp_json_value(E, s):
+    from pyvc.engine import VO_term
+    return VO_term(BM.jl(_sz(E, s)), E.fresh('jv'))
+
+
+for _n, _f in (('b64', _sp_b64), ('strip_pad', _sp_strip_pad), ('repad', _sp_repad), ('tr_plus', _sp_tr('tplus')),
+               ('tr_minus', _sp_tr('tminus')), ('bjoin', _sp_bjoin), ('as_text', _sp_as_text), ('as_bytes', _sp_as_bytes),
+               ('is_ascii_', _sp_pred(BM.is_ascii)), ('b64chars_', _sp_pred(BM.b64chars)), ('b64ok_', _sp_pred(BM.b64ok)),
+               ('zok_', _sp_pred(BM.zok)), ('utf8ok_', _sp_pred(BM.utf8ok)), ('jok_', _sp_pred(BM.jok)),
+               ('unb64', _sp_fun(BM.unb64, VBy)), ('zc', _sp_fun(BM.zc, VBy)), ('zd', _sp_fun(BM.zd, VBy)),
+               ('utf8e', _sp_fun(BM.utf8e, VBy)), ('utf8d', _sp_fun(BM.utf8d, VS)),
+               ('jdumps', lambda E, v: VS(BM.jd(E.to_val(v)))), ('jloads', _sp_json_value),
+               ('axiom_b64_hom', _sp_hint_b64_hom), ('axiom_unb64_hom', _sp_hint_unb64_hom)):
+    _spec.register(_n, _f)
+
+
+def _bytes_list(*names):
+    """pre-iteration hook: the named lists hold bytes only (so their abstract prefix may be joined)"""
+    def hook(E, env):
+        for n in names:
+            v = env.locals.get(n)
+            if isinstance(v, VRef) and E.heap[v.addr].base is not None:
+                E.ghost[('bytes_list', E.heap[v.addr].base.name)] = True
+    return hook
+
+
+# ---- encode_str(state: bytes): URL-safe base64 text of the bytes, padding removed ----
+ENC_LOOP = {1: dict(header='for i in range(0, l_, 57)',
+                    inv={'C20.chunks_so_far_are_the_base64_of_the_prefix': "bjoin(states) == b64(state[:57 * __k_1])"},
+                    havoc_heap=['states'], after_havoc=_bytes_list('states'), types={'i': 'int'},
+                    hints=["axiom_b64_hom(state[:i], state[i:i + 57])"])}
+contract(TT + '.encode_str', variant='C20',
+         params=dict(state=Bytes()),
+         ensures={'C20.codec.encode_str_is_translated_unpadded_base64': "result == tr_plus(strip_pad(b64(state)))",
+                  'C20.codec.encode_str_output_is_ascii': "is_ascii_(result)"},
+         raises=[], invariants=ENC_LOOP)
+
+# ---- encode_seq(state): json -> utf-8 -> zlib -> the same chunked base64, as ASCII text ----
+contract(TT + '.encode_seq', variant='C20',
+         params=dict(state=Opaque()),
+         ensures={'C20.codec.encode_seq_is_translated_unpadded_base64_of_the_compressed_json':
+                  "result == as_text(tr_plus(strip_pad(b64(zc(utf8e(jdumps(state)))))))"},
+         raises=[], invariants=ENC_LOOP)
+
+# ---- compress / decompress: the type checks and the library layering ----
+contract(TT + '.compress', variant='C20', params=dict(input=Str()),
+         ensures={'C20.codec.compress_is_zlib_of_utf8': "result == zc(utf8e(input))"}, raises=[])
+contract(TT + '.decompress', variant='C20', params=dict(input=Bytes()),
+         requires=["zok_(input)", "utf8ok_(zd(input))"],
+         ensures={'C20.codec.decompress_is_utf8_of_unzlib': "result == utf8d(zd(input))"}, raises=[])
+
+# ---- decode_seq(text): undo the translation, restore the padding, decode in 76-character chunks, decompress, load ----
+_T_TEXT = "tr_minus(as_bytes(state))"
+_T_BYTES = "tr_minus(state)"
+
+
+def _dec_contract(variant, spec, T):
+    X = "utf8d(zd(unb64(repad(%s))))" % T
+    contract(TT + '.decode_seq', variant=variant,
+             params=dict(state=spec),
+             # the domain of the round trip: URL-safe base64 text without padding, as encode_seq / encode_str produce it,
+             # of a zlib stream of utf-8 text
+             requires=(["is_ascii_(state)"] if isinstance(spec, Str) else []) + [
+                 "b64chars_(%s)" % T, "b64ok_(repad(%s))" % T, "zok_(unb64(repad(%s)))" % T, "utf8ok_(zd(unb64(repad(%s))))" % T],
+             ensures={'C20.codec.decode_seq_inverts_translation_padding_chunking_and_compression':
+                      "implies(jok_(%s), val_is(result, jloads(%s)))" % (X, X),
+                      'C20.codec.decode_seq_gives_the_empty_state_for_text_that_is_not_json':
+                      "implies(not jok_(%s), len_of(result) == 0)" % X},
+             raises=[],
+             invariants={1: dict(header='for i in range(l_ // 76)',
+                                 inv={'C20.position_is_a_multiple_of_76': "j == 76 * __k_1",
+                                      'C20.chunks_so_far_decode_the_prefix': "bjoin(states) == unb64(state[:j])"},
+                                 havoc_heap=['states'], after_havoc=_bytes_list('states'), types={'i': 'int', 'j': 'int', 'k': 'int'},
+                                 hints=["axiom_unb64_hom(state[:j], state[j:j + 76])", "axiom_unb64_hom(state[j:j + 76], b'')"],
+                                 exit_hints=["axiom_unb64_hom(state[:j], repad(state[j:]))", "axiom_unb64_hom(state[:j], b'')"])})
+
+
+_dec_contract('C20.text', Str(), _T_TEXT)
+_dec_contract('C20.bytes', Bytes(), _T_BYTES)
+CODEC = [TT + '.encode_str#C20', TT + '.encode_seq#C20', TT + '.compress#C20', TT + '.decompress#C20',
+         TT + '.decode_seq#C20.text', TT + '.decode_seq#C20.bytes']
+
+
+# ---- the round trip, as a lemma over the two contracts and the assumed library axioms ----
+class _Collect:
+    """stands in for the engine when axiom instances are built outside a symbolic execution"""
+
+    def __init__(self):
+        self.lib_used = set()
+        self.facts = []
+
+    def assume(self, f):
+        self.facts.append(f)
+
+
+def roundtrip_lemma():
+    from pyvc.run import Lemma
+    from pyvc.engine import REPO_SRC  # noqa: F401
+
+    def build():
+        import ast as _ast
+        # the tables as written in the source (the finite facts about them are obligations of their own, see codec_obligations)
+        path = os.path.join(REPO_SRC, 'TreeDisplay', 'TreeTag.py')
+        env = {}
+        for st in _ast.parse(open(path).read()).body:
+            if isinstance(st, _ast.Assign) and isinstance(st.targets[0], _ast.Name) and st.targets[0].id in ('tbl', 'tplus', 'tminus'):
+                exec(compile(_ast.Module([st], []), path, 'exec'), env)
+        trp, trm = BM.translate_fn(env['tplus']), BM.translate_fn(env['tminus'])
+        C = _Collect()
+        s = z3.Const('state', Val)
+        J = BM.jd(s)
+        U = BM.utf8e(J)
+        X = BM.zc(U)
+        B = BM.ax_b64(C, X)
+        eq = z3.StringVal('=')
+        k = z3.IndexOf(B, eq, 0)
+        P = z3.If(k >= 0, z3.SubString(B, 0, k), B)                       # strip_pad(b64(X))
+        enc = trp(P)                                                       # encode_seq's result (contract clause), as text
+        T = trm(enc)                                                       # decode_seq: translation undone
+        r = z3.Length(T) % 4
+        RP = z3.If(r == 0, T, z3.If(r == 1, z3.Concat(T, z3.StringVal('===')),
+                                    z3.If(r == 2, z3.Concat(T, z3.StringVal('==')), z3.Concat(T, eq))))   # repad(T)
+        hyps = list(C.facts)
+        # library round trips (assumed; the same statements the library models of pyvc/bytesmodel.py assume)
+        hyps += [BM.zok(X), BM.zd(X) == U, BM.utf8ok(U), BM.utf8d(U) == J, BM.jok(J), BM.jl(J) == s]
+        # translation tables: character-wise maps; tminus undoes tplus on alphabet text (finite enumeration obligation
+        # C20.codec.tminus_inverts_tplus_on_the_base64_alphabet), ASCII stays ASCII
+        t = z3.String('t!any')
+        hyps += [z3.ForAll([t], z3.Implies(BM.b64chars(t), trm(trp(t)) == t)),
+                 z3.ForAll([t], z3.Implies(BM.is_ascii(t), BM.is_ascii(trp(t)))),
+                 z3.Implies(BM.is_ascii(B), BM.is_ascii(P)), z3.Implies(BM.b64chars(z3.SubString(B, 0, k)), BM.b64chars(P))]
+        X2 = BM.utf8d(BM.zd(BM.unb64(RP)))
+        goal = z3.And(BM.is_ascii(enc),                                    # decode_seq's preconditions hold on encode_seq's output ...
+                      BM.b64chars(T), BM.b64ok(RP), BM.zok(BM.unb64(RP)), BM.utf8ok(BM.zd(BM.unb64(RP))),
+                      BM.jok(X2), BM.jl(X2) == s)                          # ... and its result is the state that was encoded
+        return hyps, goal
+    return Lemma('C20.codec.lemma.decode_seq_inverts_encode_seq', build,
+                 uses=[TT + '.encode_seq#C20', TT + '.decode_seq#C20.text'],
+                 text='decode_seq(encode_seq(state)) == state for every state (any size, any ids): from the postcondition of encode_seq, '
+                      'the pre/postcondition of decode_seq and the assumed library round trips (base64, zlib, utf-8, json) and table facts')
+
+
+def lemma_hypotheses_canary():
+    """vacuity guard: the hypotheses of the round-trip lemma must not be refutable"""
+    from pyvc import smt
+    hyps, goal = roundtrip_lemma().build()
+    v, _m, be = smt.check(list(hyps))
+    return [dict(oid='C20.codec.lemma.hypotheses_not_contradictory', kind='vacuity', status='refuted' if v == 'unsat' else 'discharged',
+                 paths=1, backends=[be], ms=0, model=None, havoced=False,
+                 detail='the library axioms and contract clauses the round-trip lemma rests on are not contradictory '
+                        '(solver verdict on their conjunction: %s; unsat would make the lemma vacuous)' % v)]
